@@ -20,7 +20,7 @@ Proof.
 Qed.
 Lemma ctor_ValueError k v u : @ctor RA G k v u = Err ValueError -> v <= 0.
 Proof.
-  unfold ctor, bind. rewrite factor_is_SI. destruct (spec_factor k u); [|discriminate].
+  unfold ctor, bind. destruct (factor G k u) eqn:Ef; [|intros H; injection H as H; apply factor_err in Ef; congruence].
   destruct k; cbn; unfold Rleb, Rltb;
   repeat match goal with |- context [Rlt_dec ?a ?b] => destruct (Rlt_dec a b) | |- context [Rle_dec ?a ?b] => destruct (Rle_dec a b) end;
   intros H; try discriminate; lra.
